@@ -235,6 +235,18 @@ func oracleC12(c *oracleCtx) {
 	if c.tier == "replay" {
 		return
 	}
+	// ---- directed corruptions in layouts the generator seldom makes: heads and literals that span lines ----
+	for _, t := range []string{
+		"for (let i = 0\n i < 10;\n i++) { a() }", "for (let i = 0;\n i < 10\n i++) { a() }", "for (i = 0\n;i < 3\ni++) a()",
+		"for (let i = 0; i < 3) { a() }", "for (; i < 3) a()", "for (;) a()", "for (let i = 0 i < 3; i++) a()",
+		"let s = `a\nb` let t = 2", "x = `a\nb` y = 1", "let q = \"a\\\nb\" let r = 2", "s = `a\n\nb`\n`c`",
+		"let f = function (n) { return n } let p = 1", "let o = { x: 1 } total = 3", "x = [1] y = 2", "f(a) g(b)",
+		"f(1, , 3)", "f(, b)", "g(a,, b)", "[1, , 2](x) y", "if (a) { b } else else c", "while (a) { } }", "function f( { }",
+		"a = 1 b = 2", "return 1 2", "let x = 1 let y = 2",
+	} {
+		c.count(t)
+		c12Check(c, t, "directed", -1, -1)
+	}
 	// ---- witnesses of the known classes ----
 	for _, w := range []struct {
 		text      string
